@@ -31,7 +31,9 @@ Bases == << [tpl |-> "intRange",     slots |-> << <<"lb", "int">>, <<"ub", "int"
             \* literals whose value makes the constraint vanish: SIZE(0..MAX) and (0..MAX) are "no constraint"
             [tpl |-> "sizeZeroMax",  slots |-> << <<"lb", "size">> >>],
             [tpl |-> "intZeroMax",   slots |-> << <<"lb", "int">> >>],
-            [tpl |-> "sizeOneMax",   slots |-> << <<"lb", "size">> >>] >>
+            [tpl |-> "sizeOneMax",   slots |-> << <<"lb", "size">> >>],
+            \* the reference is named like an enumeration item used as DEFAULT in the same definition
+            [tpl |-> "seqEnumClash", slots |-> << <<"ub", "int">> >>] >>
 
 \* rival: Main imports from Lib as in sibName, and a second importer (Rival) imports the SAME names from RivalLib, where they
 \* have other values: what a name means in one module must not leak into another one resolved in the same run
